@@ -21,6 +21,9 @@ type ExpandOpt struct {
 	Depth int
 	// Defers makes deferred calls explicit before every return (see expandDefers).
 	Defers bool
+	// GoLits rewrites `go h(a)` with stable operands into `go func(){ h(a) }()` and expands h there, so that
+	// the body of a goroutine is seen where it is started whether it is a literal or a method.
+	GoLits bool
 }
 
 // Expand returns a view of the declared function f in which every call (in a
@@ -61,7 +64,7 @@ func (p *Prog) Expand(f *Func, opt ExpandOpt) *Func {
 	body.List = x.blockT(body.List, 0, true)
 	x.dropDeadClosures(body)
 	if opt.Defers {
-		if x.expandDefers(body) && x.inlinedCalls == nil {
+		if x.expandDefers(body, f.Type) && x.inlinedCalls == nil {
 			x.inlinedCalls = map[ast.Node]bool{}
 		}
 	}
@@ -230,6 +233,10 @@ func (x *expander) stmt(s ast.Stmt, next ast.Stmt, depth int) []ast.Stmt {
 	switch t := s.(type) {
 	case *ast.DeferStmt:
 		x.litForm(&t.Call, depth)
+	case *ast.GoStmt:
+		if x.opt.GoLits {
+			x.litForm(&t.Call, depth)
+		}
 	case *ast.ExprStmt:
 		if call, ok := ast.Unparen(t.X).(*ast.CallExpr); ok {
 			pre = x.hoistArgs(call, depth)
@@ -513,10 +520,6 @@ func (x *expander) eligibleBody(fn *Func, call *ast.CallExpr, allowDefer bool) b
 	ok := true
 	Walk(fn.Body, false, func(n ast.Node) {
 		switch t := n.(type) {
-		case *ast.DeferStmt:
-			if !allowDefer {
-				ok = false
-			}
 		case *ast.CallExpr:
 			if id, isID := t.Fun.(*ast.Ident); isID && id.Name == "recover" {
 				if _, b := fn.Info().Uses[id].(*types.Builtin); b {
@@ -751,6 +754,20 @@ func (x *expander) inline(call *ast.CallExpr, ctx *callCtx, depth int) ([]ast.St
 			}
 		}
 	})
+
+	// a callee that defers: in tail position its deferred calls simply join the caller's; elsewhere they are
+	// made explicit before each of the callee's returns (or the call stays a call)
+	hasDefer := false
+	Walk(body, false, func(n ast.Node) {
+		if _, ok := n.(*ast.DeferStmt); ok {
+			hasDefer = true
+		}
+	})
+	if hasDefer && !(ctx.tail && (ctx.kind == ctxDiscard || ctx.kind == ctxReturn)) {
+		if !x.expandDefers(body, srcType) {
+			return nil, false
+		}
+	}
 
 	// single trailing return?
 	var rets []*ast.ReturnStmt
@@ -1395,7 +1412,7 @@ func (x *expander) litForm(callp **ast.CallExpr, depth int) {
 // it is) when a defer is registered on only some of the paths to a return, when
 // a deferred function recovers, or when an operand of a deferred call is not
 // stable. Panics are not modelled (as everywhere in the path rules).
-func (x *expander) expandDefers(body *ast.BlockStmt) bool {
+func (x *expander) expandDefers(body *ast.BlockStmt, ftype *ast.FuncType) bool {
 	// normalise `defer call(args)` to literals where possible
 	type deferred struct {
 		stmt *ast.DeferStmt
@@ -1429,12 +1446,12 @@ func (x *expander) expandDefers(body *ast.BlockStmt) bool {
 		return false
 	}
 	// an explicit return at the end of a body that falls off
-	if x.top.Type.Results == nil || len(x.top.Type.Results.List) == 0 {
+	if ftype.Results == nil || len(ftype.Results.List) == 0 {
 		if n := len(body.List); n == 0 || !isTerminating(body.List[n-1]) {
 			body.List = append(body.List, &ast.ReturnStmt{Return: body.Rbrace})
 		}
 	}
-	tmp := &Func{P: x.p, Pkg: x.top.Pkg, Body: body, Type: x.top.Type, Obj: x.top.Obj}
+	tmp := &Func{P: x.p, Pkg: x.top.Pkg, Body: body, Type: ftype}
 	g := tmp.Graph()
 	plan := map[*ast.ReturnStmt][]*deferred{}
 	for _, rn := range g.Returns() {
